@@ -7,13 +7,16 @@
                 dict literal -> association list        exception -> Raise e        loop exit -> flow
    Whatever is not listed here has no translation: the translator fails closed.
    Round 2 (below the line "round 2"): dicts as VALUES (association lists without duplicate keys), defaultdict(set), range, max,
-   OrderedDict.move_to_end, del, dict.update, set(<list>), sorted / list.sort on str. *)
+   OrderedDict.move_to_end, del, dict.update, set(<list>), sorted / list.sort on str.
+   Round 3 (below the line "round 3"): try / except Exception [as e] / [finally], exception messages, hash of a tuple of classes. *)
 From Coq Require Import List Bool ZArith String Ascii.
 Import ListNotations.
 Open Scope Z_scope.
 
-(* exceptions: only the class matters *)
-Inductive exn := ValueError | IndexError | KeyError | TypeError | OtherError.
+(* exceptions: only the class matters.  OtherError = `raise Exception(...)`; NonException (round 3) = a BaseException that is NOT
+   an Exception (SystemExit, KeyboardInterrupt, GeneratorExit): nothing in the translated subset raises it, a callee that is a
+   parameter of a generated definition may *)
+Inductive exn := ValueError | IndexError | KeyError | TypeError | OtherError | NonException.
 Inductive res (A : Type) := Ok (a : A) | Raise (e : exn).
 Arguments Ok {A} a.
 Arguments Raise {A} e.
@@ -187,3 +190,41 @@ Fixpoint py_insert_str (x : string) (l : list string) : list string :=
   | y :: t => if String.leb x y then x :: l else y :: py_insert_str x t
   end.
 Definition py_sorted_str (l : list string) : list string := fold_right py_insert_str [] l.
+
+(* ---------- round 3: try / except / finally, messages, hash ---------- *)
+(* `except Exception` catches every exception whose class derives from Exception *)
+Definition py_is_exception (e : exn) : bool := match e with NonException => false | _ => true end.
+
+(* How a block of statements inside a try statement ends: it ran to its end, it executed `return r`, or an exception left it.
+   The block is a STATE TRANSFORMER over the variables of the enclosing scope that the try statement assigns or mutates (St): the
+   state comes back in every case - after a raise it is the state AT the raise (the effects before it happened). *)
+Inductive tryend (R : Type) := TNormal | TReturn (r : R) | TRaise (e : exn).
+Arguments TNormal {R}.
+Arguments TReturn {R} r.
+Arguments TRaise {R} e.
+
+(*   try: <body>  except Exception [as e]: <handler>  [finally: <fin>]
+   1. the body runs;  2. if it was left by an exception that `except Exception` catches, the handler runs on the state the body
+   left behind and ITS end replaces the body's (falling off its end swallows the exception; `raise` / `raise E(...)` inside it -
+   after its effects - propagates; `return` returns); an exception that is not caught stays pending;  3. the finally block runs
+   on EVERY exit (normal end, return, pending exception): when it ends normally the pending end is resumed, when it raises its
+   exception replaces whatever was pending (`return` inside finally is not translated).  Without `finally:` fin is the identity. *)
+Definition py_try {St Rt : Type} (body : St -> St * tryend Rt) (handler : exn -> St -> St * tryend Rt)
+  (fin : St -> St * option exn) (s : St) : St * tryend Rt :=
+  let (s1, o1) := body s in
+  let (s2, o2) := match o1 with
+                  | TRaise e => if py_is_exception e then handler e s1 else (s1, o1)
+                  | _ => (s1, o1)
+                  end in
+  let (s3, f) := fin s2 in
+  match f with Some e => (s3, TRaise e) | None => (s3, o2) end.
+
+(* The TEXT of an exception message or a traceback (f"...{e}...", traceback.format_exc()) is not modelled - only the class of an
+   exception is kept -: every message is the same value; building one has no effect and cannot raise *)
+Definition msg := unit.
+Definition py_msg : msg := tt.
+
+(* hash(<tuple of classes / uuids>): Python computes the hash of a tuple from the hashes of its components, so tuples with equal
+   components have equal hashes.  The hash is modelled as the list of components itself (distinct component lists are taken to
+   hash differently: the model never merges two keys that Python's set / dict would keep apart because of __eq__) *)
+Definition py_hash_tuple (l : list nat) : list nat := l.
